@@ -5,6 +5,6 @@ p=$1; shift
 tree=${SEED_TREE:-/repo}
 cd $tree && git diff --quiet || { echo "tree dirty: $tree"; exit 3; }
 git apply "$p" || { echo "PATCH DOES NOT APPLY to $tree"; exit 3; }
-for k in "$@"; do (cd /verif && VERIF_REPO=$tree VERIF_EVIDENCE_DIR=/tmp/verif_mutant_evidence_$$ timeout 1500 ./check $k 2>&1 | grep -E "VIOLATION|^\[|HARNESS|key=" | cut -c1-260 | head -8); done
+for k in "$@"; do (cd /verif && VERIF_FAILFAST=1 VERIF_REPO=$tree VERIF_EVIDENCE_DIR=/tmp/verif_mutant_evidence_$$ timeout 1500 ./check $k 2>&1 | grep -E "VIOLATION|^\[|HARNESS|key=" | cut -c1-260 | head -8); done
 git -C $tree checkout -- .
 rm -rf /tmp/verif_mutant_evidence_$$
